@@ -1,5 +1,9 @@
 """C18 - resource-lifecycle findings (`use_after_free`, `ensure_resource_availability`) follow from the observed history.
 
+Review round 2 (enumerators in mc/c18_extra.py) added five narrow history families - D (depth 5), N (earlier steps without a
+recorded response), S (status alphabet), T (identifier types), V (document shapes: operations 8..12) - and family E: the real
+stateful phase of the real engine runs both checks against scripted APIs and the recorded trees are judged by the same predicates.
+
 E5: explicit-state breadth-first enumeration of scenario HISTORIES.  A state is the ordered list of steps
 ``[operation, identifiers, response status, parent, override-shape]``; ``build(history)`` creates a fresh real
 ``ScenarioRecorder`` and replays the real ``record_case`` / ``record_response`` with real ``Case`` / ``Response`` /
@@ -13,11 +17,12 @@ from __future__ import annotations
 import itertools
 from typing import Any, Iterator
 
+from mc import c18_extra as extra
 from mc.runner import Result
 
 ID = "C18"
 LEVEL = "model_checking"
-ENGINES = ["E5"]
+ENGINES = ["E5"]  # + six single deterministic executions of the real engine (family E)
 RULE = (
     "state = ordered scenario history of steps (operation, path identifiers, response status, parent in {none, any earlier "
     "step}, link override shape in {all, some, none}); every history up to the stated depth over the stated alphabets is "
@@ -34,28 +39,41 @@ RULE = (
 # are extended further come from the restricted alphabet (`Case._override` is observable on the newest case only).
 BOUNDS = {
     "quick": {
-        "A": {"depth": 3, "ids": [1, 11, 2], "pids": [1, 11], "statuses": [200, 404, 403, 500], "ops": "all 8",
+        "A": {"depth": 3, "ids": [1, 11, 2], "pids": [1, 11], "statuses": [200, 404, 403, 500], "ops": "first 8",
               "override_shapes": "all/some/none on the newest step, 'all' on earlier link-derived steps"},
         # deeper trees over a narrow alphabet: a DELETE that hangs below a non-root ancestor of the judged request
         # (sibling under a non-root parent, cousin below an intermediate ancestor) needs four steps
         "C": {"depth": 4, "ids": [1, 11], "pids": [1], "statuses": [200, 404], "earlier_statuses": [200],
               "ops": [0, 1, 3, 5], "override_shapes": "all/some/none on the newest step, 'all' on earlier link-derived steps"},
+        # review round 2 (mc/c18_extra.py): D = depth 5, N = earlier steps without a recorded response, S = status alphabet,
+        # T = identifier types, V = document shapes (operations 8..12), E = the real stateful phase against scripted APIs
+        **extra.EXTRA_BOUNDS,
+        "E": {"engine_scenarios": sorted(extra.ENGINE_SCENARIOS)},
     },
     "thorough": {
-        "A": {"depth": 3, "ids": [1, 11, 2], "pids": [1, 11, 2], "statuses": [200, 302, 404, 403, 500], "ops": "all 8",
+        "A": {"depth": 3, "ids": [1, 11, 2], "pids": [1, 11, 2], "statuses": [200, 302, 404, 403, 500], "ops": "first 8",
               "override_shapes": "all/some/none on every link-derived step"},
         "B": {"depth": 4, "ids": [1, 11], "pids": [1, 11], "statuses": [200, 404, 403, 500],
-              "earlier_statuses": [200, 403, 500], "ops": "all but PUT",
+              "earlier_statuses": [200, 403, 500], "ops": "first 8 but PUT",
               "override_shapes": "all/some/none on the newest step, 'all' on earlier link-derived steps"},
+        **extra.EXTRA_BOUNDS,
+        "E": {"engine_scenarios": sorted(extra.ENGINE_SCENARIOS)},
     },
 }
 BUDGET_S = {"quick": 140, "thorough": 3000}
 CHUNK = 2
 ASSUMPTIONS = [
     "one API document (POST /users, GET|PUT|DELETE /users/{id}, GET /users/{id}/posts?limit, DELETE /users/{id}/posts/{pid}, "
-    "GET /orders/{id}); consistently named collections, so the singular/plural heuristic of _is_prefix_operation is not exercised",
-    "identifiers are integers from {1, 11, 2}; statuses 200/404/403/500 (+302 in the thorough tier)",
+    "GET /orders/{id}, DELETE /users/{id}/avatar; family V adds GET|POST /users/{user_id}/comments, DELETE /users/{uid}/comments/{cid}, "
+    "GET|DELETE /userstats/{id}); no two collection names differ only in trailing 's', so the singular/plural heuristic of "
+    "_is_prefix_operation is not exercised (the text says 'same path prefix' and leaves such pairs open)",
+    "identifiers are integers from {1, 11, 2} (family T: 1, '1', '11', 'a', 'A' - an integer and the string of its digits address the "
+    "same resource, they make the same URL); statuses 200/404/403/500 (+302 in the thorough tier; family S: 200 201 202 204 299 300 "
+    "399 400 401 404 499 503); family N: earlier steps with a recorded network error or with no interaction at all - such a request "
+    "is not known to have succeeded",
     "every non-root step is link-derived (carries a real Transition); cases derived inside checks (transition=None) are not enumerated",
+    "family E: six scripted APIs x one derandomized run of the real stateful phase each (12 examples x 5 steps); what the engine "
+    "recorded for a case is judged, a check result that is missing for a case (equal failures are recorded once per suite) is undecided",
     "case metadata for link-derived steps is hand-built; a dedicated work item proves it equal to what the real "
     "OpenApiLink.extract + into_step_input produce for the same link shapes",
     "'resource not available after creation' is judged one-way (the text says 'only for'); 3xx as 'successful' and a successful "
@@ -76,6 +94,8 @@ OPS = [
     {"method": "GET", "path": "/orders/{id}", "vars": ["id"], "query": []},
     # a sub-resource WITHOUT an identifier of its own: deeper path, same variables as /users/{id} (deleting it does not delete the user)
     {"method": "DELETE", "path": "/users/{id}/avatar", "vars": ["id"], "query": []},
+    # 8..12 (review round 2, used by family V only): differently named variables, /userstats, a POST with an identifier
+    *extra.EXTRA_OPS,
 ]
 LIMIT = 5  # value of the generated (or link-provided) optional query parameter
 
@@ -109,7 +129,9 @@ LINKS = {
     "PostsAll": (4, "all"), "PostsSome": (4, "some"), "PostsNone": (4, "none"),
     "DeletePostAll": (5, "all"), "DeletePostSome": (5, "some"), "DeletePostNone": (5, "none"),
     "OrderAll": (6, "all"), "CreateAgain": (0, "all"),
+    **extra.EXTRA_LINKS,
 }
+EXPRESSIONS = {"id": "$response.body#/id", "pid": "$response.body#/pid", "limit": "$response.body#/limit", **extra.EXTRA_EXPRESSIONS}
 
 
 def link_parameters(op: int, shape: str) -> dict[str, str]:
@@ -121,16 +143,20 @@ def link_parameters(op: int, shape: str) -> dict[str, str]:
     if shape == "some":
         names = names[:1]
     for name in names:
-        out[name] = {"id": "$response.body#/id", "pid": "$response.body#/pid", "limit": "$response.body#/limit"}[name]
+        out[name] = EXPRESSIONS[name]
     return out
 
 
-def document() -> dict:
+def document(link_definitions: dict | None = None) -> dict:
+    """link_definitions: name -> (operation, `parameters` object) replaces the links of `POST /users` -> 201 (engine scenarios)."""
     ok = {"200": {"description": "ok"}, "default": {"description": "other"}}
-    op_ids = {0: "createUser", 1: "getUser", 2: "putUser", 3: "deleteUser", 4: "listPosts", 5: "deletePost", 6: "getOrder", 7: "deleteAvatar"}
+    op_ids = {0: "createUser", 1: "getUser", 2: "putUser", 3: "deleteUser", 4: "listPosts", 5: "deletePost", 6: "getOrder", 7: "deleteAvatar",
+              **extra.EXTRA_OPERATION_IDS}
     links = {}
-    for name, (op, shape) in sorted(LINKS.items()):
-        links[name] = {"operationId": op_ids[op], "parameters": link_parameters(op, shape)}
+    if link_definitions is None:
+        link_definitions = {name: (op, link_parameters(op, shape)) for name, (op, shape) in LINKS.items()}
+    for name, (op, parameters) in sorted(link_definitions.items()):
+        links[name] = {"operationId": op_ids[op], "parameters": dict(parameters)}
     body = {"content": {"application/json": {"schema": {"type": "object"}}}, "required": True}
     return {
         "openapi": "3.0.2",
@@ -150,6 +176,13 @@ def document() -> dict:
                                                    "responses": ok}},
             "/orders/{id}": {"get": {"operationId": op_ids[6], "parameters": [_param("id")], "responses": ok}},
             "/users/{id}/avatar": {"delete": {"operationId": op_ids[7], "parameters": [_param("id")], "responses": ok}},
+            "/users/{user_id}/comments": {"parameters": [_param("user_id")],
+                                          "get": {"operationId": op_ids[8], "responses": ok},
+                                          "post": {"operationId": op_ids[12], "requestBody": body, "responses": ok}},
+            "/users/{uid}/comments/{cid}": {"delete": {"operationId": op_ids[9], "parameters": [_param("uid"), _param("cid")],
+                                                       "responses": ok}},
+            "/userstats/{id}": {"parameters": [_param("id")], "get": {"operationId": op_ids[10], "responses": ok},
+                                "delete": {"operationId": op_ids[11], "responses": ok}},
         },
     }
 
@@ -165,13 +198,15 @@ def family_config(tier: str, family: str) -> dict:
         "depth": b["depth"], "ids": b["ids"], "pids": b["pids"], "statuses": b["statuses"],
         # statuses of steps that are extended further (the newest step of every judged history uses `statuses`)
         "earlier_statuses": b.get("earlier_statuses", b["statuses"]),
-        "ops": list(b["ops"]) if isinstance(b["ops"], list) else [i for i in range(len(OPS)) if not (b["ops"] == "all but PUT" and i == 2)],
+        "ops": list(b["ops"]) if isinstance(b["ops"], list) else [i for i in range(8) if not (b["ops"] == "first 8 but PUT" and i == 2)],
+        "family": family,
+        "earlier_only": [s for s in b.get("earlier_statuses", []) if s not in b["statuses"]],
         "shapes_on_newest_only": b["override_shapes"].startswith("all/some/none on the newest step"),
     }
 
 
 def op_ids_choices(cfg: dict, op: int) -> list[list[int]]:
-    pools = [cfg["ids"] if v == "id" else cfg["pids"] for v in OPS[op]["vars"]]
+    pools = [cfg["pids"] if v in extra.SECOND_LEVEL_VARIABLES else cfg["ids"] for v in OPS[op]["vars"]]
     return [list(c) for c in itertools.product(*pools)]
 
 
@@ -213,9 +248,16 @@ def leaf_only_variants(cfg: dict, history: list) -> list[list]:
     return out
 
 
+def history_families(tier: str) -> list[str]:
+    """The narrow families of review round 2 first (they are cheap: a run stopped by the time cap has still done them)."""
+    return sorted((f for f in BOUNDS[tier] if "depth" in BOUNDS[tier][f]), key=lambda f: (f not in extra.EXTRA_BOUNDS, f))
+
+
 def items(tier: str, seed: int) -> list[dict]:
     out: list[dict] = [{"family": "meta"}]
-    for family in sorted(BOUNDS[tier]):
+    for name in BOUNDS[tier]["E"]["engine_scenarios"]:
+        out.append({"family": "E", "scenario": name})
+    for family in history_families(tier):
         cfg = family_config(tier, family)
         # an item = a prefix of depth-2 steps (canonical shapes) + the operation of the next step; it owns every extension
         prefix_len = cfg["depth"] - 2
@@ -272,12 +314,13 @@ def root_of(history: list, i: int) -> int:
     return i
 
 
-def is_2xx(status: int) -> bool:
-    return 200 <= status < 300
+def is_2xx(status: Any) -> bool:
+    """`status` is an integer, or "E" / "U" for a step without a recorded response (which did not succeed as far as anyone saw)."""
+    return status.__class__ is int and 200 <= status < 300
 
 
-def is_3xx(status: int) -> bool:
-    return 300 <= status < 400
+def is_3xx(status: Any) -> bool:
+    return status.__class__ is int and 300 <= status < 400
 
 
 def status_class(status: int | None) -> str:
@@ -409,6 +452,9 @@ class World:
         self.operations = [self.schema[o["path"]][o["method"]] for o in OPS]
         self.engine_ctx = EngineContext(schema=self.schema, stop_event=threading.Event(),
                                         config=engine.make_config(phases=["stateful"]))
+        from schemathesis.core.transport import Response
+
+        self.response_class = Response
         self._cases: dict = {}
         self._responses: dict = {}
         self._transitions: dict = {}
@@ -517,10 +563,12 @@ def resolve(w: World, history: list, position: int) -> tuple:
     step = history[position]
     case = w.case(position, step)
     parent = step[3]
+    # "U": nothing is recorded for the step; "E": a network error (the prepared request without a response) is recorded
+    answer = None if step[2] == "U" else (w.response([step[0], step[1], 200]).request if step[2] == "E" else w.response(step))
     if parent == -1:
-        return case, None, None, w.response(step)
+        return case, None, None, answer
     transition = w.transition(parent, history[parent], step)
-    return case, transition.parent_id, transition, w.response(step)
+    return case, transition.parent_id, transition, answer
 
 
 def build(w: World, history: list, resolved: list | None = None) -> tuple[Any, Any, Any, Any]:
@@ -534,7 +582,10 @@ def build(w: World, history: list, resolved: list | None = None) -> tuple[Any, A
     case = response = None
     for case, parent_id, transition, response in resolved:
         recorder.record_case(parent_id=parent_id, transition=transition, case=case)
-        recorder.record_response(case_id=case.id, response=response)
+        if response.__class__ is w.response_class:
+            recorder.record_response(case_id=case.id, response=response)
+        elif response is not None:
+            recorder.record_request(case_id=case.id, request=response)
     ctx = w.engine_ctx.get_check_context(recorder)
     return recorder, ctx, case, response
 
@@ -590,7 +641,7 @@ def describe(history: list) -> list[str]:
     return out
 
 
-def judge(res: Result, w: World, history: list, seen_sigs: dict, resolved: list | None = None) -> None:
+def judge(res: Result, w: World, history: list, seen_sigs: dict, resolved: list | None = None, family: str = "") -> None:
     """Build the history on the real recorder, run both real checks on the newest case, compare with the text."""
     _, ctx, case, response = build(w, history, resolved)
     checks = _checks()
@@ -603,11 +654,17 @@ def judge(res: Result, w: World, history: list, seen_sigs: dict, resolved: list 
     key = (len(history), uaf, want_uaf, era, allow_era)
     tally[key] = tally.get(key, 0) + 1
     if uaf == "silent" and era == "silent" and want_uaf is False and allow_era is False and not facts["relevant"]:
+        if family == "V" and extra.unrelated_name_extension(OPS, history):
+            res.count("V_silent_after_delete_in_collection_with_extended_name")
         return  # trivial: nothing reported, nothing demanded or permitted, no DELETE of this resource in the tree
+    if family in extra.EXTRA_BOUNDS:
+        for name in extra.features(family, OPS, history, facts, uaf, era, allow_era):
+            res.count(name)
 
     def violation(signature: dict, extra: dict) -> None:
         key = tuple(sorted((k, str(v)) for k, v in signature.items()))
         res.count("violating_states")
+        res.count("violating_states_in_family_" + (family or "?"))
         res.count("violating_states:" + ",".join(f"{k}={v}" for k, v in key))
         seen_sigs[key] = seen_sigs.get(key, 0) + 1
         if seen_sigs[key] <= MAX_VIOLATIONS_PER_SIGNATURE_PER_ITEM:
@@ -678,7 +735,9 @@ class Walk:
         self.resolved.pop()
 
     def judge_current(self) -> None:
-        judge(self.res, self.w, list(self.history), self.seen, self.resolved)
+        if self.history[-1][2].__class__ is not int:
+            return  # no response: the checks are never called for such a step, it only occurs as an earlier step
+        judge(self.res, self.w, list(self.history), self.seen, self.resolved, self.cfg["family"])
 
     def judge_owned(self) -> None:
         """The current history and its siblings whose last step is outside the alphabet of extended steps."""
@@ -705,6 +764,13 @@ class Walk:
             if extendable(self.cfg, step):
                 self.extend()
             self.pop()
+        if self.cfg["earlier_only"]:
+            # steps that exist as earlier steps only (no recorded response): never judged, always extended
+            for step in extensions(self.cfg, len(self.history), newest=False, ops=ops):
+                if step[2] in self.cfg["earlier_only"]:
+                    self.push(step)
+                    self.extend()
+                    self.pop()
 
     def finish(self) -> Result:
         flush_tally(self.res, self.seen)
@@ -719,6 +785,8 @@ def check_item(item: dict, tier: str) -> Result:
     w = world()
     if item["family"] == "meta":
         return check_metadata(res, w)
+    if item["family"] == "E":
+        return check_engine(res, item["scenario"])
     walk = Walk(res, w, family_config(tier, item["family"]))
     if "only" in item:
         for history in item["only"]:
@@ -734,6 +802,88 @@ def check_item(item: dict, tier: str) -> Result:
         walk.judge_owned()
     walk.extend(ops=[item["next_op"]])
     return walk.finish()
+
+
+# ---------------------------------------------------------------------------------------------------------------------
+# The other entry point: the real stateful phase runs both checks against a scripted API (family E)
+# ---------------------------------------------------------------------------------------------------------------------
+
+ENGINE_EXAMPLES = 12
+ENGINE_STEPS = 5
+
+
+def check_engine(res: Result, name: str) -> Result:
+    """One deterministic execution of the real engine (stateful phase, derandomized) per scripted API.  Every recorded case of
+    every finished scenario is judged: its history = the cases recorded before it (the scenario is sequential), read from the
+    recorder's raw mappings; its verdicts = the check results the engine recorded for it."""
+    from mc import engine
+    from schemathesis.specs.openapi.checks import ensure_resource_availability, use_after_free
+
+    scenario = extra.ENGINE_SCENARIOS[name]
+    schema = engine.load_schema(document(scenario["links"]))
+    config = engine.make_config(phases=["stateful"], max_examples=ENGINE_EXAMPLES, stateful_step_count=ENGINE_STEPS,
+                                checks=[use_after_free, ensure_resource_availability], continue_on_failure=True)
+    run = engine.run_engine(schema, config, extra.scripted_api(scenario))
+    res.evaluations += 1
+    problems = [type(e).__name__ for e in run.events if type(e).__name__ in ("FatalError", "NonFatalError", "Interrupted")]
+    if run.error is not None or problems:
+        res.oracle_errors.append({"error": "the engine run did not complete cleanly", "scenario": name, "exception": repr(run.error),
+                                  "events": problems})
+        return res
+    seen: dict = {}
+    finished = run.of_type("ScenarioFinished")
+    res.count("engine_scenarios_finished", len(finished))
+    for event in finished:
+        steps, verdicts = extra.tree_of(event.recorder, OPS)
+        for n, step in enumerate(steps):
+            if step[2].__class__ is not int or step[4] == "derived":
+                continue
+            judge_recorded(res, steps[: n + 1], verdicts[n], name, seen)
+    res.outcomes.add("engine")
+    return res
+
+
+def judge_recorded(res: Result, history: list, recorded: dict, scenario: str, seen: dict) -> None:
+    observed = {"FAILURE": "reported", "SUCCESS": "silent"}
+    uaf = observed.get(recorded.get("use_after_free"), "unrecorded")
+    era = observed.get(recorded.get("ensure_resource_availability"), "unrecorded")
+    want_uaf, facts = oracle_use_after_free(history)
+    allow_era, era_failed = oracle_resource_availability(history)
+    res.states += 1
+    res.traces += 1
+    res.transitions += 1
+    res.count(f"engine_uaf_{uaf}_expected_{want_uaf}")
+    res.count(f"engine_era_{era}_permitted_{allow_era}")
+    res.outcomes.add(f"engine:uaf:{uaf}/era:{era}")
+    if uaf == "reported" and any([type(v) for v in history[j][1]] != [type(v) for v in history[-1][1]] for j in facts["successful_deletes"]):
+        res.count("engine_use_after_free_reported_across_identifier_types")
+
+    def violation(signature: dict, extra_detail: dict) -> None:
+        key = tuple(sorted((k, str(v)) for k, v in signature.items()))
+        seen[key] = seen.get(key, 0) + 1
+        res.count("violating_states")
+        res.count("violating_states_in_family_E")
+        if seen[key] <= MAX_VIOLATIONS_PER_SIGNATURE_PER_ITEM:
+            res.violation(signature, {"scenario": scenario, "history": describe(history), "steps": history, "recorded": recorded,
+                                      **extra_detail})
+
+    newest_class = status_class(history[-1][2])
+    if uaf == "reported" and want_uaf is False:
+        violation({"entry": "engine", "check": "use_after_free",
+                   "kind": "reported_for_404" if newest_class == "404" else "reported_without_successful_delete_of_the_resource",
+                   "nearest": facts["nearest"]}, {"oracle": facts})
+    elif uaf == "silent" and want_uaf is True:
+        violation({"entry": "engine", "check": "use_after_free", "kind": "not_reported_after_successful_delete",
+                   "answer": newest_class}, {"oracle": facts})
+    if era == "reported" and allow_era is False:
+        violation({"entry": "engine", "check": "ensure_resource_availability", "kind": "reported_although_a_stated_condition_fails",
+                   "failed_conditions": era_failed}, {})
+    if uaf == "reported" or era == "reported" or want_uaf is not False or allow_era is not False or facts["relevant"]:
+        res.count("nontrivial_states")
+        res.nontriv(["engine"] + [[s[0], s[2], s[3], s[4], _relation(s, history[-1])] for s in history] + [uaf, era, want_uaf, allow_era])
+        if len(res.samples) < 1 and (uaf == "reported" or era == "reported"):
+            res.samples.append({"engine_scenario": scenario, "history": describe(history), "use_after_free": uaf,
+                                "ensure_resource_availability": era})
 
 
 # ---------------------------------------------------------------------------------------------------------------------
@@ -784,7 +934,7 @@ def check_metadata(res: Result, w: World) -> Result:
             problems.append(("phase", repr(real_case.meta.phase), repr(mine.meta.phase)))
         if overridden(real_case) != overridden(mine):
             problems.append(("override", overridden(real_case), overridden(mine)))
-        if overridden(mine) != sorted(supplied_by_link(op, shape)) and not (shape == "some" and op == 5):
+        if overridden(mine) != sorted(supplied_by_link(op, shape)) and not (shape == "some" and len(OPS[op]["vars"]) == 2):
             # DELETE /users/{id}/posts/{pid} with only `id` from the link: the whole component counts as generated
             problems.append(("override_vs_shape", overridden(mine), supplied_by_link(op, shape)))
         want_params = {c: sorted(v) for c, v in mine_transition.parameters.items()}
@@ -812,6 +962,19 @@ def check_metadata(res: Result, w: World) -> Result:
 # ---------------------------------------------------------------------------------------------------------------------
 
 
+REVIEW_ROUND_2_COUNTERS = [
+    "S_use_after_free_reported_after_delete_with_another_2xx", "S_use_after_free_reported_for_another_answer",
+    "S_unavailable_reported_after_post_with_another_2xx",
+    "T_use_after_free_reported_across_identifier_types",
+    "V_use_after_free_reported_across_variable_names", "V_unavailable_reported_after_post_with_identifiers",
+    "V_silent_after_delete_in_collection_with_extended_name",
+    "N_silent_after_delete_without_response",
+    "engine_uaf_reported_expected_True", "engine_uaf_silent_expected_False",
+    "engine_era_reported_permitted_True", "engine_era_silent_permitted_False",
+    "engine_use_after_free_reported_across_identifier_types",
+]
+
+
 def vacuity(total: Result, tier: str) -> list[str]:
     c = total.counters
     out = []
@@ -827,9 +990,15 @@ def vacuity(total: Result, tier: str) -> list[str]:
         out.append("link metadata was not compared with the real link machinery")
     # a run stopped by the time cap (reported as exhaustive=False by the runner) may not have reached the deepest family
     capped = "items_done_before_time_cap" in c
-    depth = min(BOUNDS[tier][f]["depth"] for f in BOUNDS[tier]) if capped else max(BOUNDS[tier][f]["depth"] for f in BOUNDS[tier])
+    depths = [BOUNDS[tier][f]["depth"] for f in history_families(tier)]
+    depth = min(depths) if capped else max(depths)
     if not c.get(f"depth_{depth}"):
         out.append(f"no history of depth {depth} was reached")
+    if not capped:
+        # every dimension of review round 2 reached the shape it was added for
+        for name in REVIEW_ROUND_2_COUNTERS:
+            if not c.get(name):
+                out.append(f"review-round-2 coverage counter is zero: {name}")
     if len(total.outcomes) < 3:
         out.append("fewer than three outcome classes")
     return out
@@ -849,5 +1018,5 @@ LEVEL_TEXT = (
 LEVEL_NOTE = (
     "Trusted: the reference predicates in this module and the hand-built link metadata (proved equal to the real link machinery "
     "for every shape by the `meta` item). Not covered: histories deeper than the bound, other documents (singular/plural "
-    "collection names, trailing slashes, differently named path variables), non-integer identifiers, cases derived inside checks."
+    "collection names, trailing slashes), identifiers other than integers and short strings, cases derived inside checks."
 )
